@@ -163,8 +163,21 @@ impl TransportVisitor for VBuf {
                 1 => {
                     let r = crate::util::catch(|| dev.receive());
                     match (r, completed.pop_front()) {
-                        (Ok(Ok(rx)), Some((_tok, payload))) => {
+                        (Ok(Ok(mut rx)), Some((_tok, payload))) => {
                             tag("receive:ok");
+                            // Every view of the received buffer: the frame (shared and mutable
+                            // view), the raw bytes and the decoded header.
+                            match crate::util::catch(std::panic::AssertUnwindSafe(|| rx.packet_mut().to_vec())) {
+                                Ok(pm) => {
+                                    if pm != payload {
+                                        viol("rx-data", format!("packet_mut() is {} bytes {:?}..., the device wrote the {}-byte frame {:?}... after a {}-byte header", pm.len(), &pm[..pm.len().min(4)], payload.len(), &payload[..payload.len().min(4)], hdr));
+                                    }
+                                }
+                                Err(p) => viol("rx-data", format!("packet_mut() panicked for a {}-byte frame after a {}-byte header: {}", payload.len(), hdr, p)),
+                            }
+                            if rx.as_bytes().len() < hdr + payload.len() || rx.as_bytes()[hdr..hdr + payload.len()] != payload[..] {
+                                viol("rx-data", format!("as_bytes() does not hold the {}-byte frame after the {}-byte header", payload.len(), hdr));
+                            }
                             tlog!("step {}: receive -> packet of {} bytes", step, rx.packet_len());
                             if rx.packet_len() != payload.len() {
                                 viol("rx-length", format!("packet_len() = {} but the device wrote a {}-byte frame (used length minus the {}-byte header)", rx.packet_len(), payload.len(), hdr));
